@@ -70,7 +70,7 @@ if meta["applies"]:
 dst = os.path.join(VERIF, "seeded", name)
 os.makedirs(dst, exist_ok=True)
 for f in ("patch.diff", "demo.py", "notes.md"):
-    if os.path.exists(os.path.join(sdir, f)):
+    if os.path.exists(os.path.join(sdir, f)) and os.path.abspath(sdir) != os.path.abspath(dst):
         shutil.copy(os.path.join(sdir, f), os.path.join(dst, f))
 json.dump(meta, open(os.path.join(dst, "meta.json"), "w"), indent=1)
 shutil.rmtree(work, ignore_errors=True)
